@@ -30,13 +30,13 @@ const prelude = `(set-option :produce-models true)
 (define-fun fld ((p Loc) (f Int)) Loc (mkLoc (base p) (PF (path p) f)))
 (define-fun wf ((x Slice)) Bool
   (and (bvsle #x0000000000000000 (s_len x)) (bvsle (s_len x) (s_cap x))
-       (bvsle #x0000000000000000 (s_off x)) (bvsle (s_off x) #x3fffffffffffffff)
-       (bvsle (s_cap x) #x3fffffffffffffff)
-       (bvsle (bvadd (s_off x) (s_cap x)) #x3fffffffffffffff)
+       (bvsle #x0000000000000000 (s_off x)) (bvsle (s_off x) #x0000010000000000)
+       (bvsle (s_cap x) #x0000010000000000)
+       (bvsle (bvadd (s_off x) (s_cap x)) #x0000010000000000)
        (=> (= (s_arr x) NullLoc) (and (= (s_cap x) #x0000000000000000) (= (s_off x) #x0000000000000000)))
        (=> (= (base (s_arr x)) 0) (= (s_arr x) NullLoc))))
 (define-fun okptr ((p Loc)) Bool (=> (= (base p) 0) (= p NullLoc)))
-(define-fun wfstr ((x Str)) Bool (and (bvsle #x0000000000000000 (str_len x)) (bvsle (str_len x) #x3fffffffffffffff)))
+(define-fun wfstr ((x Str)) Bool (and (bvsle #x0000000000000000 (str_len x)) (bvsle (str_len x) #x0000010000000000)))
 (define-fun inrange ((l Loc) (s Slice) (lo (_ BitVec 64)) (hi (_ BitVec 64))) Bool
   (and (= (base l) (base (s_arr s))) ((_ is PE) (path l)) (= (pe_p (path l)) (path (s_arr s)))
        (bvsle (bvadd (s_off s) lo) (pe_i (path l))) (bvslt (pe_i (path l)) (bvadd (s_off s) hi))))
